@@ -3,7 +3,7 @@
 EXTENDS Routing, Json, IOUtils
 
 AllFixes  == {"syslog_ceiling", "dup_names"}
-RepoFixes == {}                       \* deviations repaired in /repo (see known_findings.json)
+RepoFixes == {"syslog_ceiling", "dup_names"}  \* deviations repaired in /repo (see known_findings.json)
 \* as-is pass: one run per open deviation d with Fixes = All \ {d}; d comes from the environment
 CexFixes  == AllFixes \ {IOEnv.DEV}
 
